@@ -163,6 +163,8 @@ func openConn(kind string) (*cliConn, bool) {
 		channels, shells = 2, 2
 	case "key_shell_twice": // two shell requests on one channel
 		channels, shells = 1, 2
+	case "key_exec", "key_pty", "key_env", "key_subsystem": // what a plain OpenSSH client sends: the server kicks it out
+		channels = 1
 	}
 	for i := 0; i < channels; i++ {
 		ch, rq, err := cc.ssh.OpenChannel("session", nil)
@@ -177,6 +179,20 @@ func openConn(kind string) (*cliConn, bool) {
 		}
 		for j := 0; j < n; j++ {
 			ch.SendRequest("shell", true, nil)
+		}
+		switch kind {
+		case "key_exec":
+			ch.SendRequest("exec", true, gossh.Marshal(struct{ Command string }{"id"}))
+		case "key_pty":
+			ch.SendRequest("pty-req", true, gossh.Marshal(struct {
+				Term           string
+				W, H, Wpx, Hpx uint32
+				Modes          string
+			}{"xterm", 80, 24, 0, 0, ""}))
+		case "key_env":
+			ch.SendRequest("env", true, gossh.Marshal(struct{ Name, Value string }{"LANG", "C"}))
+		case "key_subsystem":
+			ch.SendRequest("subsystem", true, gossh.Marshal(struct{ Name string }{"sftp"}))
 		}
 	}
 	return cc, true
